@@ -23,12 +23,18 @@ def checkSymmetry (H : Poly K) (nmodes : Nat) (op : Poly K) : Except SymErr Bool
   match Poly.commutes eqLengthTest H op with
   | none => .error .ub
   | some false => .ok false
-  | some true =>
-    (List.range nmodes).foldlM (fun (ok : Bool) i =>
+  | some true => do
+    let ok1 ← (List.range nmodes).foldlM (fun (ok : Bool) i =>
       if !ok then pure false else
       match Poly.commutes eqLengthTest (opN i) op with
       | none => .error .ub
       | some b => pure b) true
+    if !ok1 || !additivityTest then pure ok1 else
+    (List.range nmodes).foldlM (fun (ok : Bool) i =>
+      if !ok then pure false else
+      match Poly.commutator op (opCdag i) with
+      | none => .error .fuel
+      | some comm => pure (comm.all fun mc => mc.1 == [⟨false, i⟩])) true
 
 /-- `Symmetrizer::compute(vector<Operator>)`: the accepted ones, in order. -/
 def computeCustom (H : Poly K) (nmodes : Nat) (ops : List (Poly K)) : Except SymErr (List (Poly K)) :=
@@ -48,7 +54,7 @@ def computeDefault (H : Poly K) (tbl : List IndexInfo) (ignore : Bool) (half : K
     if !validSz then pure acc else
     let ups := (List.range nmodes).filter fun i => (tbl.getD i default).spin = Pomerol.Gen.Presets.spinUp
     let downs := (List.range nmodes).filter fun i => !(ups.contains i)
-    if ups.length ≠ downs.length then .error .szThrows else
+    if ups.length ≠ downs.length then (if szGuardedByEqualCounts then pure acc else .error .szThrows) else
     let opsz : Poly K := opSz half ups downs
     let okS ← checkSymmetry H nmodes opsz
     pure (if okS then acc ++ [opsz] else acc)
